@@ -280,6 +280,7 @@ def run(ctx):
     # ---- ADMT correspondence ------------------------------------------------------------------
     n_admt_grids = 12 if quick else 120
     admt_aniso = {}
+    admt_scales = {}
     for gi in range(n_admt_grids):
         nx, ny = rng.randint(2, 5 if quick else 8), rng.randint(2, 5 if quick else 8)
         x0, y0, dx, dy = gen_grid_params(rng, quick or gi % 10 != 0)   # non-dyadic dx costs ~1 s per cell in Coq
@@ -301,6 +302,10 @@ def run(ctx):
         xm, ym = x0 + (nx - 1) * dx / 2, y0 - (ny - 1) * dy / 2
         psi = (b * (X - xm) + c * (Y - ym) + q[0] * (X - xm) ** 2 + q[1] * (X - xm) * (Y - ym) + q[2] * (Y - ym) ** 2
                + cub[0] * (X - xm) ** 3 + cub[1] * (X - xm) * (Y - ym) ** 2)
+        # the operator does not depend on the units of the flux: scale psi over many decades (powers of two keep it exact)
+        psi_scale = rng.choice([1.0, 2.0 ** -30, 2.0 ** -17, 2.0 ** -8, 2.0 ** 12, 2.0 ** 25])
+        psi = psi * psi_scale
+        admt_scales[psi_scale] = admt_scales.get(psi_scale, 0) + 1
         aniso = rng.choice([1, 2, 10, 1000])
         admt_aniso[aniso] = admt_aniso.get(aniso, 0) + 1
         L = admt_utils.calculate_admt(X, ops, psi, dx, dy, anisotropy=aniso)
@@ -325,7 +330,7 @@ def run(ctx):
                 zlit(nx), zlit(ny), zlit(ix), zlit(iy), qlit(dx), qlit(dy), qlit(s), qlit(aniso), qlit(float(X[k])),
                 name, qlist(co)))
             meta.append({"kind": "admt", "nx": nx, "ny": ny, "ix": ix, "iy": iy, "x0": x0, "y0": y0, "dx": dx, "dy": dy,
-                         "perm": perm, "anisotropy": aniso, "psi_coeffs": {"b": b, "c": c, "q": q, "cub": cub},
+                         "perm": perm, "anisotropy": aniso, "psi_coeffs": {"b": b, "c": c, "q": q, "cub": cub, "scale": psi_scale},
                          "impl_row": co})
     # ---- write case files (<= 400 cases each) and run them in Coq -------------------------------
     files = []
@@ -383,6 +388,8 @@ def run(ctx):
             ext = max(nx * m["dx"], ny * m["dy"])
             cpsi = [0, rng.choice([-3, -2, 2, 3]) + 0.0, rng.choice([-2, -1, 1, 2]) + 0.0] + \
                    [dyadic(rng, -1, 1, 4) / (4 * ext) for _ in range(3)]
+            sc = m["psi_coeffs"]["scale"]
+            cpsi = [v * sc for v in cpsi]
             # centre the quadratic so that the gradient does not vanish on the grid
             search_fails += search_admt(admt_utils, nx, ny, m["x0"] + 1.0, m["y0"], m["dx"], m["dy"], perm, cpsi,
                                         m["anisotropy"], rng)
@@ -409,7 +416,7 @@ def run(ctx):
                 "(linear + quadratic + cubic) and anisotropy in {1,2,10,1000}; distinct = distinct (kind, grid, cell, dx, dy)",
         "distribution": {"stencil_cells": n_stencil, "admt_cells": len(meta) - n_stencil,
                          "grid_sizes": len(sizes), "boundary_classes(left,right,top,bottom)": {str(k): v for k, v in boundary_classes.items()},
-                         "admt_anisotropy": admt_aniso, "boundary_or_admt_cases": nontrivial,
+                         "admt_anisotropy": admt_aniso, "admt_flux_scale": {repr(k): v for k, v in admt_scales.items()}, "boundary_or_admt_cases": nontrivial,
                          "search_grids": n_search},
         "tolerance": {"stencil_dyadic": "exact", "stencil_general": "2^-40 * row max", "admt": "2^-28 * row max"},
         "partial": ["'consistent discretisation' is proved as the algebraic identity of the coefficient formulas with the "
